@@ -108,6 +108,38 @@ def point_enclosure(fam, p, x, deriv=False):
 
 
 def job_tables(arg):
+    """the interval obligations; a data-dependent branch in the evaluated code makes them undecided and the real Calculate is
+    evaluated natively (at the table locations and on a closed grid) for a failing input - only a refutation counts"""
+    try:
+        return job_tables_ival(arg)
+    except TypeError as e:
+        if "interval" not in str(e):
+            raise
+    fam, fn = arg
+    gen = hillGen if fam == "Hill" else shekelGen
+    p = families()[fam][0](fn)
+    lo, up = float(p.lowerBoundOfFloatVariables[0]), float(p.upperBoundOfFloatVariables[0])
+    tmin = gen.minHill[fn] if fam == "Hill" else gen.minShekel[fn]
+    tmax = gen.maxHill[fn]
+
+    def calc(x):
+        return float(p.Calculate(Point(np.array([x], dtype=np.double), []), FunctionValue()).value)
+    out, und = [], ["%s %d: Calculate has a data-dependent branch on the point: interval evaluation not applicable" % (fam, fn)]
+    grid = [calc(x) for x in np.linspace(lo, up, 4001)]
+    for kind, (val, loc), agg in (("min", tmin, min), ("max", tmax, max)):
+        val, loc = float(val), float(loc)
+        v = calc(loc)
+        if not abs(v - val) <= 1e-4:
+            out.append(dict(what="%s %d: f(table %s location %.6f) = %r differs from the table value %.7f by more than 1e-4 "
+                                 "(native evaluation)" % (fam, fn, kind, loc, v, val)))
+            continue
+        g = agg(grid)
+        if (kind == "min" and g < val - 1e-4) or (kind == "max" and g > val + 1e-4):
+            out.append(dict(what="%s %d: table %s value %.7f is not the %simum (grid value %.7f)" % (fam, fn, kind, val, kind, g)))
+    return (fam, (fn,), out, und)
+
+
+def job_tables_ival(arg):
     """C18: published minimum / maximum / Lipschitz tables of Hill and Shekel agree with the functions"""
     fam, fn = arg
     gen = hillGen if fam == "Hill" else shekelGen
@@ -176,6 +208,23 @@ def job_tables(arg):
     return (fam, (fn,), out, und)
 
 
+def _sibling(fam, args):
+    """a second instance of the same family, constructed AFTER the examined one and evaluated once (the declared data of an
+    instance must not depend on which other instances exist)"""
+    cls, members = families()[fam]
+    members = [tuple(m) for m in members]
+    if len(members) < 2:
+        return None
+    k = members.index(tuple(args)) if tuple(args) in members else 0
+    other = members[(k + 1) % len(members)]
+    try:
+        q = cls(*other)
+        q.Calculate(Point(np.array([float(t) for t in q.knownOptimum[0].point.floatVariables], dtype=np.double), []), FunctionValue())
+        return q
+    except Exception:
+        return None
+
+
 def job_optimum(arg):
     """the interval obligations; if the evaluated code has a data-dependent branch the interval evaluation does not apply
     (undecided) and the real Calculate is sampled natively for a failing input (bounded, only a refutation counts)"""
@@ -215,6 +264,7 @@ def job_optimum_ival(arg):
     fam, args = arg
     cls = families()[fam][0]
     p = cls(*args)
+    sibling = _sibling(fam, args)         # another member of the family is alive while this one is examined
     lo = [float(t) for t in p.lowerBoundOfFloatVariables]
     up = [float(t) for t in p.upperBoundOfFloatVariables]
     xs = [float(t) for t in p.knownOptimum[0].point.floatVariables]
